@@ -3,9 +3,13 @@
 meta.json = the author's meta + what was confirmed here (confirm.txt) + which checks caught it (seeded-*.log lines)."""
 import json,sys,os,shutil,glob,re
 i=sys.argv[1]
-src=f'/tmp/mut/{i}/out'; dst=f'/verif/seeded/{i}'
+# optional: <mutdir> <dest suffix> <runlog dir> (round 2: /tmp/mut2 -r2 /tmp/runlogs2)
+mutdir=sys.argv[2] if len(sys.argv)>2 else '/tmp/mut'
+suffix=sys.argv[3] if len(sys.argv)>3 else ''
+logdir=sys.argv[4] if len(sys.argv)>4 else '/tmp/runlogs'
+src=f'{mutdir}/{i}/out'; dst=f'/verif/seeded/{i}{suffix}'
 os.makedirs(dst,exist_ok=True)
-shutil.copy(f'{src}/patch.diff',f'{dst}/patch.diff')
+shutil.copy(os.environ.get('PATCH',f'{src}/patch.diff'),f'{dst}/patch.diff')
 if os.path.isdir(f'{dst}/demo'): shutil.rmtree(f'{dst}/demo')
 shutil.copytree(f'{src}/demo',f'{dst}/demo')
 meta=json.load(open(f'{src}/meta.json'))
@@ -19,7 +23,7 @@ meta['confirmed_by_integrator']={
   'log':conf[-3000:],
 }
 det={}
-for f in sorted(glob.glob(f'/tmp/runlogs/seeded-{i}-*.log')):
+for f in sorted(glob.glob(f'{logdir}/seeded-{i}-*.log')):
     c=f.split('-')[-1][:-4]
     t=open(f).read()
     v=re.search(r'^VIOLATION.*',t,re.M); s=re.search(r'signature=(\S+)',t)
